@@ -7,7 +7,8 @@
 (* A reply method:                                                         *)
 (*   [name, handlers (seq, empty = the method's own name), on, data,       *)
 (*    payload ("raw" | "bin" | "t1" | "t2" | "t3"), outcome]               *)
-(*      ("bin": one Binary parameter without the raw marker)               *)
+(*      ("bin": one Binary parameter without the raw marker; "tn": three   *)
+(*       parameters named gas_limit, msg, id)                              *)
 (*   data: "none" | "plain" | "opt" | "raw" | "rawopt" | "inst" | "instopt" *)
 (*         (only meaningful on a success method)                           *)
 (* A reply program: [id, methods]                                          *)
